@@ -718,6 +718,10 @@ class Machine:
             for sc in reversed(self.quant_scope):
                 if name in sc:
                     return sc[name]
+        if self.spec_mode and name in self.params0 and not getattr(self.c, "spec_params_current", False):
+            # in a clause a parameter name denotes the ARGUMENT (its value at entry), not whatever the code re-binds the name to:
+            # otherwise code that overwrites a parameter would drag the specification along.  now(name) reads the current binding.
+            return self.params0[name]
         if name in self.locals:
             return self.locals[name]
         if self.spec_mode:
@@ -2321,6 +2325,15 @@ def _sf_rowlen(m, node):
     return m.heap[(v.id, "rowlen")][to_z3num(m.eval(node.args[1]))]
 
 
+def _sf_now(m, node):
+    """now('name') / now(name): the CURRENT binding of a local (parameters in clauses denote their value at entry)"""
+    a = node.args[0]
+    nm = a.id if isinstance(a, ast.Name) else m.eval(a)
+    if nm in m.locals:
+        return m.locals[nm]
+    raise Unsupported("now(%r): no such local" % (nm,))
+
+
 def _sf_gen_label(m, node):
     v = m.eval(node.args[0])
     if isinstance(v, Ref) and v.kind == "gen":
@@ -2413,7 +2426,7 @@ def _sf_is_iterator(m, node):
 SPEC_FUNCS = {
     "is_iterator": _sf_is_iterator, "late_bound": _sf_late, "count": _sf_count, "data_of_iters": _sf_iters_of,
     "RINT": _sf_rint, "TRUNC": _sf_trunc, "call_of": _sf_call_of, "call_arg": _sf_call_arg,
-    "FDIV": _sf_fdiv, "is_stream": _sf_is_stream, "data_of": _sf_data_of, "iter_of": _sf_iter_of, "rowlen": _sf_rowlen, "store": _sf_store, "fq": _sf_fq, "is_filter_view": _sf_is_filter, "tee_child": _sf_tee_child, "gen_label": _sf_gen_label, "src_of": _sf_src_of,
+    "FDIV": _sf_fdiv, "is_stream": _sf_is_stream, "data_of": _sf_data_of, "iter_of": _sf_iter_of, "now": _sf_now, "rowlen": _sf_rowlen, "store": _sf_store, "fq": _sf_fq, "is_filter_view": _sf_is_filter, "tee_child": _sf_tee_child, "gen_label": _sf_gen_label, "src_of": _sf_src_of,
     "same": _sf_same, "captured": _sf_captured, "is_closure": _sf_is_closure,
     "forall": _sf_quant("forall"), "exists": _sf_quant("exists"), "implies": _sf_implies, "ite": _sf_ite,
     "reads": _sf_reads, "pos": _sf_reads, "length": _iter_field("len"), "finite": _sf_finite,
